@@ -18,6 +18,18 @@ CLAIMED = {
          "Lean theorems: for every operation sequence (non-negative sizes) the models of iox.Buffer (grow policy transcribed branch by branch, capacity included) and iox.OctetsStream refine an abstract seekable FIFO over the full write history (unread portion = bytes written and not consumed; compaction invisible; Seek fails unchanged or lands inside the retained data, all int64 offsets incl. overflow; no panic); models tied to /repo by per-run differential comparison of every observation (result, Bytes, Len, cursor, Cap) after every op over exhaustive short and random long sequences, plus an independent Python reference oracle",
          "trusted: Lean kernel, axioms in evidence, driver compilation, harness+generators; bytes between len and cap unobservable; ErrTooLarge excluded by a stated total-size bound; single goroutine",
          "machine-checked refinement proof (Lean 4) + differential correspondence", "DESIGN.md §2 C13"),
+ "C15": ("lean-proof+differential",
+         "Lean theorems over a one-to-one transcription of sortx's quickSort/doPivot/heapSort/insertionSort/medianOfThree and SliceBy: for ANY less function the (key,value) pairs on [0,min) are permuted, the suffix is untouched, every index passed to less/swap is < min, termination by construction; under a strict weak order the first min keys are sorted (insertion, heap sort, doPivot post-condition, quickSort), recursion depth <= 2*ceil(lg(n+1)) before heap sort; UniqueInt/UniqueString = run collapse (= List.eraseReps), strictly increasing on sorted input. Tied to /repo by per-run comparison of final slices and the complete less(i,j) call log (hash + full log for n<=16) incl. quicksort-killer inputs reaching the heap-sort fallback. The O(n log n) comparison COUNT is not proved (partial): monitored on every run (<= 4 n (lg n + 2))",
+         "trusted: Lean kernel, axioms in evidence, driver compilation, harness+generators, reflect.Swapper contract; Go int indices modelled as Nat under guards",
+         "machine-checked proof (Lean 4) + differential correspondence incl. comparison log", "DESIGN.md §2 C15"),
+ "C19": ("lean-proof+differential",
+         "Lean theorems over a line-by-line model of aesx on a store of backing arrays (make/append semantics): unpad(pad p)=p, Decrypt(Encrypt p)=p for CBC (any block permutation with left inverse) and CFB (any block function), Encrypt = standard CBC∘PKCS#7 / CFB-128 with the stated lengths, no array existing before the call is modified and the result never aliases one, output depends only on (key, iv, input bytes), option selection; old append-based padding counterexample. Tied to /repo per run: real aesx output compared byte for byte with an executable FIPS-197 AES-128/192/256 + CBC/CFB written in Lean (known-answer tests at driver start), backing-array snapshots, 8 goroutines sharing one cipher; oracle additionally cross-checks a Python AES and openssl",
+         "trusted: crypto/aes and crypto/cipher implement the block function and the modes (cross-checked on every case, not proved); concurrency claim reduced to purity + differential run (partial); Lean kernel, axioms in evidence, driver compilation, harness",
+         "machine-checked proof (Lean 4) + differential correspondence against a Lean FIPS-197 AES", "DESIGN.md §2 C19"),
+ "C20": ("lean-proof+differential",
+         "Lean theorems over a transcription of container/heap (up/down/Push/Pop, proved: heap invariant preserved and Pop minimal under a strict weak order; permutation for arbitrary comparisons) and of the WeightedSampling loop with the keys as inputs: for every key list and ANY comparison outcomes the result has sampleNum pairwise distinct indices < totalNum (a permutation when equal), and under a strict total order exactly the indices of the sampleNum largest keys; invalid arguments panic; old pre-filled heap counterexample. Tied to /repo per run: the harness replays math/rand's stream, sends exact key ranks (big-integer comparison, independent of the float formula) to the model and compares the index slice exactly, all permutations n<=7, weak orders with ties, weights from 5e-324 to 1e300. The probability law w_i/sum(w) is NOT proved (partial): 6-sigma statistical check on every run",
+         "trusted: math/rand, float key computation outside the model (checked against exact ranks), Lean kernel, axioms in evidence, driver compilation, harness",
+         "machine-checked proof (Lean 4) + differential correspondence on exact key ranks + statistical search", "DESIGN.md §2 C20"),
 }
 NOT_CLAIMED = {}
 
